@@ -17,12 +17,13 @@ _cache = {}
 
 # private functions some rule anchors on by name: inlining them away would leave that rule without its anchor
 VOCABULARY = {'crdts::identifier::rational_between', 'crdts::merkle_reg::MerkleReg::all_hashes_seen'}
-PLUMBING_TRAITS = {'Extend', 'FromIterator', 'AsRef', 'AsMut', 'Borrow', 'BorrowMut', 'Deref', 'DerefMut', 'Index', 'IndexMut'}
+PLUMBING_TRAITS = {'Extend', 'FromIterator', 'AsRef', 'AsMut', 'Borrow', 'BorrowMut', 'Deref', 'DerefMut', 'Index', 'IndexMut', 'From'}
 
 
 def _callee_body(facts, t, same_type=None):
     c = t.get('callee')
-    if not c or not (c.get('local') or str(c.get('resolved') or '').startswith(('crdts::', '<crdts::'))):
+    if not c or not (c.get('local') or str(c.get('resolved') or '').startswith(('crdts::', '<crdts::'))
+                     or str(c.get('resolved_uid') or '').startswith('crdts::')):
         return None
     uid = c.get('resolved_uid') or c.get('uid')
     cb = facts.by_uid.get(uid)
@@ -30,6 +31,8 @@ def _callee_body(facts, t, same_type=None):
         return None
     if uid in VOCABULARY or cb.key in VOCABULARY:
         return None
+    if cb.base_uid in _remove_routines(facts):
+        return None     # the remove routine of Orswot / Map is the vocabulary of the DEF-* / RM rules: callers keep calling it
     if same_type is not None and cb.impl_self == same_type and cb.impl_self:
         # level 'p': one API function of a type written in terms of another one of the SAME type (add -> add_all,
         # insert -> apply, update -> apply, merge -> apply): the callee is this type's own code, whatever its visibility
@@ -44,6 +47,27 @@ def _callee_body(facts, t, same_type=None):
     if cb.vis == 'pub' or cb.vis is None:
         return None
     return cb
+
+
+def _remove_routines(facts):
+    """base uids of the functions the rules treat as *the* remove routine of a type (computed once per fact base)."""
+    cached = getattr(facts, '_rm_routine_uids', None)
+    if cached is not None:
+        return cached
+    facts._rm_routine_uids = set()          # while computing (rm_routines inlines helpers itself): nothing is excluded
+    try:
+        from .rules.removes import rm_routines, TYPES
+        view = facts.view
+        facts.view = 'orig'
+        out = set()
+        for inst, adt, _, _ in TYPES:
+            for b, _, _ in rm_routines(facts, adt):
+                out.add(b.base_uid)
+        facts.view = view
+    except Exception:
+        out = set()
+    facts._rm_routine_uids = out
+    return out
 
 
 def _shift_place(p, off_l):
